@@ -440,5 +440,5 @@ def band_case(case, ctx):
 
 
 def subchecks(tier):
-    return [Sub("scan", scan_case, strategy=strategy, n_quick=600, n_thorough=20000, shards_quick=4),
-            Sub("threshold_band", band_case, strategy=band_strategy, n_quick=120, n_thorough=2000, shards_quick=2)]
+    return [Sub("scan", scan_case, strategy=strategy, n_quick=600, n_thorough=40000, shards_quick=4),
+            Sub("threshold_band", band_case, strategy=band_strategy, n_quick=120, n_thorough=5000, shards_quick=2)]
